@@ -237,3 +237,12 @@ CHECKS['C17'] = dict(
          _mode_jobs('MODE_CYCLE', [23], reach=('dyndep-cycle',), bounds='a dyndep file built during the build closes a cycle through a statement that may be running or finished when it is loaded; -j in {1,2}, every completion order') +
          _mode_jobs('MODE_CYCLE', [19], reach=('acyclic-built',), bounds='validations depending on their requester / on each other must not be reported as cycles') +
          _mode_jobs('MODE_CYCLE', [20, 21], reach=('acyclic-built', 'discovered-cycle-diagnosed'), bounds='a cycle closed by a depfile / by the deps log after the first build; the source edited or not in between'))
+
+CHECKS['C12'] = dict(
+    title='manifest text means what the manual says',
+    level_text='Bounded symbolic execution of the real Lexer, ManifestParser, State and variable evaluation on manifests assembled from symbolic choices: which scopes bind a variable (file, build block, included / subninja file, late redefinition, a file-level variable named like a rule variable), where it is used (file-level value, build-level value, rule command, description), LF or CRLF line ends, $-continuations inside values and path lists, mixed input kinds, multiple/implicit outputs, pools, escapes, paths needing canonicalisation, the six legacy self-referencing phony forms, and a catalogue of 16 constraint violations with their valid neighbours. The evaluated command, description, inputs by kind, outputs, validations, pool and defaults are compared with a reference evaluator written from the manual; ill-formed manifests must be rejected with a build.ninja:<line> diagnostic.',
+    level_note='Trusted: IR generation, interpreter (cross-checked natively per run), z3, the 30-line reference evaluator. Where the manual does not fix the moment a file-level variable is read by a rule variable, the reference follows ninja (the value at the end of the scope). Bound: the three template families of harness/c12_manifest.cc.',
+    assumptions=['the three template families of harness/c12_manifest.cc', 'a file-level variable referenced from a rule variable is read with its final value in that scope (the manual is silent on the moment)'],
+    jobs=[dict(name='scoping', harness='c12_manifest.cc', units=_PARSE_UNITS, defines=['MODE_SCOPING'], reach=['single-file', 'include', 'subninja', 'crlf', 'continuation'], bounds='2^8 binding-placement choices x {none, include, subninja} x {LF, CRLF} x continuation'),
+          dict(name='kinds', harness='c12_manifest.cc', units=_PARSE_UNITS, defines=['MODE_KINDS'], reach=['kinds'], bounds='6 self-referencing phony forms x {LF, CRLF}, one statement mixing every input/output kind'),
+          dict(name='reject', harness='c12_manifest.cc', units=_PARSE_UNITS, defines=['MODE_REJECT'], reach=['rejected', 'accepted'], bounds='16 ill-formed and 6 well-formed manifests x {LF, CRLF}')])
